@@ -205,18 +205,29 @@ class Translator:
 
 
 def check_bv(assertions, timeout_ms=60000, width=160):
-    """returns ('unsat', None) | ('sat', {int var name: value, bool var name: bool}) | ('unknown', reason)"""
-    try:
-        bounds = collect_bounds(assertions)
-        tr = Translator(bounds, width)
-        out = [tr.t(a)[0] for a in assertions]
-        # variables keep their declared range (signed comparisons on the wide vectors)
-        for name, v in tr.vars.items():
-            lo, hi = bounds[name]
-            out.append(z3.And(v >= tr.val(lo), v <= tr.val(hi)))
-        out += tr.extra
-    except Refuse as e:
-        return "unknown", f"outside the bit-vector fragment: {e}"
+    """returns ('unsat', None) | ('sat', {int var name: value, bool var name: bool}) | ('unknown', reason)
+    The narrowest of the widths 72 / 104 / `width` in which no intermediate term can wrap is used
+    (interval analysis during translation refuses a width that is too small)."""
+    bounds = collect_bounds(assertions)
+    tr = out = None
+    last = None
+    for w in sorted({x for x in (72, 104, width) if x <= width}):
+        try:
+            tr = Translator(bounds, w)
+            out = [tr.t(a)[0] for a in assertions]
+            # variables keep their declared range (signed comparisons on the wide vectors)
+            for name, v in tr.vars.items():
+                lo, hi = bounds[name]
+                out.append(z3.And(v >= tr.val(lo), v <= tr.val(hi)))
+            out += tr.extra
+            break
+        except Refuse as e:
+            last = e
+            tr = out = None
+            if "exceeds the chosen width" not in str(e):
+                break
+    if out is None:
+        return "unknown", f"outside the bit-vector fragment: {last}"
     s = z3.SolverFor("QF_UFBV")
     s.set("timeout", timeout_ms)
     s.add(out)
